@@ -393,6 +393,8 @@ class Check:
                     if cls not in self.known_hit:
                         self.known_hit[cls] = (k, what, data)
                     return False
+        if any(v["class"] == cls for v in self.violations):
+            return True
         d = dict(data)
         d.update({"class": cls, "what": what})
         path = self._replay("impl-vs-spec", d)
